@@ -414,3 +414,42 @@ Theorem C02_compose_examples :
               scratch toy2_g (values st) (p2 1) = Some (Some (AxisTypes.VInd [[1]; [4]; [58]]%Z))).
 Proof. split; [exact toy2_accepted | split; [exact toy2_contract | exact toy2_fresh]]. Qed.
 Print Assumptions C02_compose_examples.
+
+(** * Weighted values (State/StateWExec.v; added after a seeded defect was missed: [_select] keeping one side's weight)
+
+    The partial-revert theorem on the value domain with [WeightedTensor] values whose weight is computed by the node function,
+    [mix] = [wwhere] = what [_select] does (row-wise selection of value AND weight), for the code as it is ([fx = true]): on every
+    weighted toy graph whose per-individual derived nodes are one-parent entry-wise functions, [F_mix] is proved
+    ([C01_F_mix_weighted]) and nothing is assumed about node functions. *)
+From Leaspy Require Import State.StateWExec State.StateWExecProofs.
+
+Theorem C02_partial_revert_weighted :
+  forall l : list wspec,
+  wwf_b (mk_wgraph l) = true -> wunary_axis_b l = true ->
+  let g := mk_wgraph l in
+  forall (st : state wval) (i : nat) (o : option wval) (reads : list nat) (m : list bool),
+    Good g st -> mode st <> None -> i < gn g -> settable g i = true -> ind_axis g i = true ->
+    (forall r, In r reads -> axis_read_ok g i r) ->
+    let st1 := fst (set_state g true st i o) in
+    let st2 := gets g st1 reads in
+    shapes_ok g wsem_where m i (values st) (values st2) ->
+    let st3 := fst (revert_mask_state wsem_where st2 m) in
+    snd (revert_mask_state wsem_where st2 m) = Done /\
+    (forall j, In j (i :: desc g i) ->
+       values st3 j = match values st j, values st2 j with Some old, Some cur => wwhere m old cur | _, _ => None end) /\
+    (forall j, ~ In j (i :: desc g i) -> values st3 j = values st2 j) /\
+    (forall j w, ~ In j (i :: desc g i) -> values st j = Some w -> values st3 j = Some w) /\
+    (forall j, In j (desc g i) -> ind_axis g j = false -> values st3 j = None) /\
+    Good g st3 /\ fork st3 = None /\ mode st3 = mode st.
+Proof. exact partial_revert_weighted. Qed.
+Print Assumptions C02_partial_revert_weighted.
+
+(** the value and the weight of every row of a doubly cached weighted node come from the same side *)
+Theorem C02_weighted_select_rows :
+  forall m ov ow cv cw rv rw, wwhere m (WWt ov ow) (WWt cv cw) = Some (WWt rv rw) ->
+    length rv = length m /\ length rw = length m /\
+    forall j b, nth_error m j = Some b ->
+      nth_error rv j = (if b then nth_error ov j else nth_error cv j) /\
+      nth_error rw j = (if b then nth_error ow j else nth_error cw j).
+Proof. exact wwhere_rows. Qed.
+Print Assumptions C02_weighted_select_rows.
